@@ -472,6 +472,20 @@ func (propC16) Run(scI interface{}) *Outcome {
 		return fail(fmt.Sprintf("compiled template renders differently from its source: source=%s compiled=%s", a.Class, b.Class),
 			fmt.Sprintf("via %s, main %q = %q\n source engine:   %s\n compiled engine: %s", sc.Via, mainName, srcs[mainName], a, b))
 	}
+	// "for every context": the same pair of engines over other variants of the context
+	if !faulted {
+		for _, k := range []int{1, 2} {
+			spA, spB := newSpies(), newSpies()
+			hubA.per[0], hubB.per[0] = spA, spB
+			av := observe(spA, func() (string, error) { return A.Render(mainName, BuildCtx(sc.Prog.Ctx.Variant(k), 0)) })
+			bv := observe(spB, func() (string, error) { return B.Render(mainName, BuildCtx(sc.Prog.Ctx.Variant(k), 0)) })
+			o.Probes["renders_compared"]++
+			if av.Key() != bv.Key() && !faulted {
+				return fail(fmt.Sprintf("compiled template renders differently from its source: source=%s compiled=%s", av.Class, bv.Class),
+					fmt.Sprintf("via %s, main %q = %q, context variant %d\n source engine:   %s\n compiled engine: %s", sc.Via, mainName, srcs[mainName], k, av, bv))
+			}
+		}
+	}
 	// metadata of what B holds
 	if tb, ok := twig.VerifCached(B)[mainName]; ok && !faulted {
 		_, srcB, lmB, _ := twig.VerifTemplateMeta(tb)
